@@ -333,6 +333,16 @@ def _replace_subscript_looping_complex_cases(source: str) -> str:
         if len(target_indexed_nodes) != len(target_used_nodes):
             continue
 
+        index_template = ast.Name(id=template_match.index.id)
+        index_used_nodes = set(core.walk(template_match.root, index_template)) - {
+            comprehension.target
+        }
+        index_subscript_nodes = {
+            name for node in target_indexed_nodes for name in core.walk(node, index_template)
+        }
+        if index_used_nodes != index_subscript_nodes:
+            continue  # The index is used for something else as well, e.g. (i, x[i])
+
         new_index_name = f"{template_match.target.id}_{template_match.index.id}"
 
         yield comprehension.target, ast.Name(id=new_index_name)
